@@ -121,15 +121,16 @@ Section Spec.
       let '(r, m) := resolve_ref_s root st p sep in
       match r with
       | RFound v => x <- to_string_s (name :: st) v ;; Ok (fst x, m || snd x)
-      | RCritical e pth => Err e pth
       | RStop Panic => Panic
       | RStop _ => OutOfModel
-      | RNone | RMissing | RCyclic =>
+      | RNone | RMissing | RCyclic | RCritical _ _ =>
+        (* found in no tree (not set, cyclic, or the path runs into a value that is no object):
+           the resolvers *)
         match resolve_env o name with
         | Some (s, _) =>
           if String.eqb s "" then Err EOther "!raw"
           else Ok (s, m || match r with RCyclic => true | _ => false end)
-        | None => match r with RCyclic => Err ECyclic "" | _ => Err EMissing "!raw" end
+        | None => match r with RCyclic => Err ECyclic "" | RCritical e pth => Err e pth | _ => Err EMissing "!raw" end
         end
       end.
 
@@ -139,13 +140,12 @@ Section Spec.
       let '(r, m) := resolve_ref_s root st p sep in
       match r with
       | RFound _ => Ok (true, m)
-      | RCritical e pth => Err e pth
       | RStop Panic => Panic
       | RStop _ => OutOfModel
-      | RNone | RMissing | RCyclic =>
+      | RNone | RMissing | RCyclic | RCritical _ _ =>
         match resolve_env o name with
         | Some (s, _) => Ok (negb (String.eqb s ""), m || match r with RCyclic => true | _ => false end)
-        | None => match r with RCyclic => Err ECyclic "" | _ => Err EMissing "!raw" end
+        | None => match r with RCyclic => Err ECyclic "" | RCritical e pth => Err e pth | _ => Err EMissing "!raw" end
         end
       end.
 
@@ -223,15 +223,14 @@ Section Spec.
         let '(r, m) := resolve_ref_s root st p sep in
         match r with
         | RFound v => x <- force1 (name :: st) v ;; Ok (fst x, m || snd x)
-        | RCritical e pth => Err e pth
         | RStop Panic => Panic
         | RStop _ => OutOfModel
-        | RNone | RMissing | RCyclic =>
+        | RNone | RMissing | RCyclic | RCritical _ _ =>
           match resolve_env o name with
           | Some (s, pc) =>
             v <- parse_value o root dp s pc ;;
             Ok (v, m || match r with RCyclic => true | _ => false end)
-          | None => match r with RCyclic => Err ECyclic "" | _ => Err EMissing "!raw" end
+          | None => match r with RCyclic => Err ECyclic "" | RCritical e pth => Err e pth | _ => Err EMissing "!raw" end
           end
         end
       | VSplice e =>
